@@ -34,12 +34,20 @@
    Load(Ser(c)) = c (RoundTripInv), exactly the varied field differs (OneFieldInv) and the identities
    differ (IdentityInv).  Broken variants (CONSTANT Variant) that TLC must reject:
        "drop_seed"  -- the seed is left out of the serialized content   -> IdentityInv fails
-       "no_tuples"  -- Load does not restore tuples                     -> RoundTripInv fails *)
+       "no_tuples"  -- Load does not restore tuples                     -> RoundTripInv fails
+
+   History machine (ConfigId_edit.cfg): a config OBJECT is mutable.  ESpec runs the histories
+       build -> Observe (hash) -> Edit(field, value) in place -> Observe -> Edit -> Observe
+   over every field and value; invariant HashFollowsInv: whenever a hash has just been observed it is
+   HashKey(current content) -- the identity follows the content, not the object's past.  Broken variant
+       "memo_hash"  -- the first observed hash is cached on the object, never invalidated
+                                                                       -> HashFollowsInv fails *)
 EXTENDS Naturals, Integers, Sequences, FiniteSets, TLC
 
-CONSTANTS Variant,        \* "ok" | "drop_seed" | "no_tuples"
+CONSTANTS Variant,        \* "ok" | "drop_seed" | "no_tuples" | "memo_hash"
           Full            \* TRUE = the whole design-level cross product, FALSE = a prefix of the three tree domains
-VARIABLES i1, i2          \* index records into the design-level domains below
+VARIABLES i1, i2,         \* index records into the design-level domains below
+          hs              \* history machine: [n, seen, memo] = steps taken, last observed hash ("" = none), cached hash
 
 \* ------------------------------------------------------------------ typed trees
 Mk(t, v) == [t |-> t, v |-> v]
@@ -231,11 +239,11 @@ ASSUME DomainsDistinct ==
      a # b => ~(IF f \in TreeFields THEN TreeEq(Dom(f)[a], Dom(f)[b]) ELSE Dom(f)[a] = Dom(f)[b])
 
 \* ------------------------------------------------------------------ design-level machine
-DInit == i1 \in Idx /\ i2 = i1
-Vary == /\ i2 = i1
+DInit == i1 \in Idx /\ i2 = i1 /\ hs = 0
+Vary == /\ i2 = i1 /\ UNCHANGED hs
         /\ \E f \in Fields : \E k \in 1..Len(Dom(f)) : k # i1[f] /\ i2' = [i1 EXCEPT ![f] = k]
         /\ i1' = i1
-DSpec == DInit /\ [][Vary]_<<i1, i2>>
+DSpec == DInit /\ [][Vary]_<<i1, i2, hs>>
 
 WFInv        == WF(Cfg(i2))
 LoweredInv   == NoTuples(SerTree(Cfg(i2)))
@@ -244,4 +252,23 @@ OneFieldInv  == DiffFields(Cfg(i1), Cfg(i2)) = {f \in Fields : i1[f] # i2[f]} /\
 IdentityInv  == (i1 # i2) => HashKey(Cfg(i1)) # HashKey(Cfg(i2))
 \* identity depends on the serialized content only
 StableInv    == HashKey(Load(SerTree(Cfg(i2)))) = HashKey(Cfg(i2))
+
+\* ------------------------------------------------------------------ history machine: in-place edits between hash observations
+\* i1 = the CURRENT content of one config object; i2 is not used (kept equal to the initial content)
+EIdx == {i \in Idx : i.name = 1 /\ i.grid_n = 1 /\ i.n_mazes = 1 /\ i.seed = 1}
+MaxSteps == 5
+EInit == i1 \in EIdx /\ i2 = i1 /\ hs = [n |-> 0, seen |-> "", memo |-> ""]
+Observe ==
+  /\ hs.n < MaxSteps /\ hs.seen = ""
+  /\ LET now == HashKey(Cfg(i1))
+         got == IF Variant = "memo_hash" /\ hs.memo # "" THEN hs.memo ELSE now
+     IN hs' = [n |-> hs.n + 1, seen |-> got, memo |-> IF Variant = "memo_hash" THEN got ELSE ""]
+  /\ UNCHANGED <<i1, i2>>
+Edit ==
+  /\ hs.n < MaxSteps /\ hs.seen # ""
+  /\ \E f \in Fields : \E k \in 1..Len(Dom(f)) : k # i1[f] /\ i1' = [i1 EXCEPT ![f] = k]
+  /\ hs' = [hs EXCEPT !.n = hs.n + 1, !.seen = ""]
+  /\ UNCHANGED i2
+ESpec == EInit /\ [][Observe \/ Edit]_<<i1, i2, hs>>
+HashFollowsInv == hs.seen # "" => hs.seen = HashKey(Cfg(i1))
 =============================================================================
